@@ -164,6 +164,7 @@ def run_property(pid, tier='quick', update_ledger=False, verbose=False):
             results = pool.map(_verify_worker, jobs, chunksize=1)
     crashed = [r for r in results if not r['ok']]
     obligations = {}
+    unsupported_funcs = []
     functions = []
     assumptions = set(prop.assumptions)
     solver_ms = 0.0
@@ -183,6 +184,9 @@ def run_property(pid, tier='quick', update_ledger=False, verbose=False):
             crashed.append(dict(func=r['func'], error='vacuous: no path completed'))
         for ob in r['obligations']:
             obligations[ob['oid']] = ob
+        if r['unsupported']:
+            # a function that could not be explored completely: never a silent pass, whatever the claim patterns say
+            unsupported_funcs.append((r['func'], '; '.join(r['unsupported'])[:400]))
     # lemmas and structural facts run in-process
     for lem in prop.lemmas:
         obligations[lem.name] = run_lemma(lem)
@@ -289,6 +293,11 @@ def run_property(pid, tier='quick', update_ledger=False, verbose=False):
         elif ob['status'] == 'undecided':
             undecided.append(oid)
 
+    for fn_, why in unsupported_funcs:
+        oid = fn_ + '::UNSUPPORTED'
+        claimed[oid] = dict(oid=oid, kind='engine', status='undecided', paths=0, backends=[], ms=0, model=None,
+                            detail='UNSUPPORTED: ' + why, havoced=False)
+        undecided.append(oid)
     missing = [o for o in ledger if o not in claimed]
     # bounded stand-ins (labelled; never counted as proved)
     bounded_out = []
